@@ -5,6 +5,7 @@ mod generated;
 #[path = "../../reflex/src/lib.rs"]
 mod reflex;
 mod lexdiff;
+mod ast_eval;
 
 fn main()
 {
@@ -17,6 +18,8 @@ fn main()
 		Some("lint-eval") => generated::value_types::run_lint(),
 		Some("lexdiff") => lexdiff::run(&args[2..]),
 		Some("lexobs") => lexdiff::run_obs(),
+		Some("export-eval") => ast_eval::run_export(),
+		Some("mut-eval") => ast_eval::run_mut(),
 		_ =>
 		{
 			eprintln!("usage: pv_replay <error-codes|value-types|lexdiff>");
